@@ -63,9 +63,11 @@ Ltac info_goal s c :=
   [ rewrite get_set_same; fold (gc s c); reflexivity
   | rewrite get_set_other by assumption; reflexivity ].
 
-Lemma truthful_step cap o s l s' : exec cap o s -> step cap s l = Some s' -> truthful_inv s -> truthful_inv s'.
+Lemma truthful_step_gen cap s l s' :
+  (forall c, proto_ok (gc s c) = true) -> (forall c, c < nconns s <-> c_reg (gc s c) <> RNone) ->
+  step cap s l = Some s' -> truthful_inv s -> truthful_inv s'.
 Proof.
-  intros He Hs IH. pose proof (conn_inv_all _ _ _ He) as CI. pose proof (reg_lt _ _ _ He) as RL.
+  intros CI RL Hs IH.
   destruct l.
   all: try solve [ inv_step Hs; (apply (truthful_frame s);
     [ reflexivity | reflexivity
@@ -101,7 +103,7 @@ Proof.
         -- apply (pend_c _ q c); cbn [nconns]; [lia| |]; rewrite Hold by assumption; assumption.
   - (* Unreg *)
     inv_step Hs. intros Hc q. specialize (IH Hc q).
-    destruct (CI c) as [_ Hp]. unfold proto_ok in Hp. rewrite Heqr in Hp.
+    pose proof (CI c) as Hp. unfold proto_ok in Hp. rewrite Heqr in Hp.
     destruct (c_r (gc s c)) eqn:Er; try (rewrite !andb_false_r in Hp; discriminate Hp).
     assert (Hlt : c < nconns s) by (apply RL; congruence).
     destruct (Nat.eq_dec (c_peer (gc s c)) q) as [Hq|Hq].
@@ -163,6 +165,13 @@ Proof.
       * eapply pend_q; eauto.
     + congruence.
     + apply (pend_c _ q c0); assumption.
+Qed.
+
+Lemma truthful_step cap o s l s' : exec cap o s -> step cap s l = Some s' -> truthful_inv s -> truthful_inv s'.
+Proof.
+  intros He. apply truthful_step_gen.
+  - intros c. apply (conn_inv_all _ _ _ He c).
+  - apply (reg_lt _ _ _ He).
 Qed.
 
 Lemma truthful_all cap o s : exec cap o s -> truthful_inv s.
